@@ -238,7 +238,7 @@ def decide(pid, cfg, tier, seed, args):
     def finding_for(q, e):
         """the open finding that explains error e of obligation q: same obligation and, when the finding names a clause,
         a rejected postcondition whose text is that clause (any other rejection in the same function is NOT explained)"""
-        for k in all_open:
+        for k in sorted(all_open, key=lambda k_: k_['property'] != pid):   # findings of this property first
             if k['obligation'] != q:
                 continue
             if 'clause' not in k:
